@@ -77,6 +77,44 @@ FAMS = {
     "invx":    ("a0*inv(x)", 1, [(0, -1)]),
 }
 INTEGRABLE = ["const", "sq", "invsq", "cube", "mono1", "mono4", "invx"]   # sympy finds the antiderivative (monomials)
+# H^2 with a parameter in the exponent: sympy's antiderivative is a Piecewise with a Ne(...) guard, and the guarded (special)
+# branch is the one that counts at exponent 2 (log x), rate 0 / base 1 (H^2 = 1).  Not expressible in the Q model: these are
+# used for the analytic-versus-numeric and analytic-versus-defining-integral comparisons only.
+FAMS.update({
+    "powx":  ("pow(x,a0)", 1, "powx"),          # x^a0
+    "apowx": ("a0*pow(x,a1)", 2, "apowx"),      # a0 x^a1
+    "ipowx": ("inv(pow(x,a0))", 1, "ipowx"),    # x^(-a0)
+    "expax": ("exp(a0*x)", 1, "expax"),         # e^(a0 x)
+    "powax": ("pow(a0,x)", 1, "powax"),         # a0^x
+})
+# (family, parameters): every special value next to a generic one
+GUARDED = [("powx", [2.0]), ("powx", [2.5]), ("powx", [1.0]),
+           ("apowx", [4900.0, 2.0]), ("apowx", [1.5, 3.0]), ("apowx", [0.75, 2.0]),
+           ("ipowx", [-2.0]), ("ipowx", [0.5]),
+           ("expax", [0.0]), ("expax", [0.4]),
+           ("powax", [1.0]), ("powax", [1.5])]
+
+
+def h_derivs(spec, params, X, C):
+    """(H, H', H'') of H^2 at X in the numeric context C (mpmath.mp or mpmath.iv)."""
+    P = [C.mpf(p) for p in params]
+    if isinstance(spec, list):
+        H = sum(P[pi] * X ** k for pi, k in spec)
+        H1 = sum((P[pi] * k * X ** (k - 1) for pi, k in spec if k != 0), C.mpf(0))
+        H2 = sum((P[pi] * k * (k - 1) * X ** (k - 2) for pi, k in spec if k not in (0, 1)), C.mpf(0))
+        return H, H1, H2
+    if spec in ("powx", "apowx", "ipowx"):
+        c, a = (P[0], P[1]) if spec == "apowx" else (C.mpf(1), P[0] if spec == "powx" else -P[0])
+        H = c * C.exp(a * C.log(X))
+        return H, a * H / X, a * (a - 1) * H / (X * X)
+    if spec == "expax":
+        H = C.exp(P[0] * X)
+        return H, P[0] * H, P[0] * P[0] * H
+    if spec == "powax":
+        l = C.log(P[0])
+        H = C.exp(l * X)
+        return H, l * H, l * l * H
+    raise ValueError(spec)
 
 
 # ---------------------------------------------------------------- helpers
@@ -364,9 +402,9 @@ def compare(ctx, jobs, results, model, const, tag, tolmu=1e-12):
     return nbad
 
 
-def predcall(zs, fam, params, try_integration=False):
+def predcall(zs, fam, params, try_integration=False, tmax=5):
     return {"op": "pred", "zs": [hx(z) for z in zs], "fam": fam, "fstr": FAMS[fam][0], "params": [hx(p) for p in params],
-            "try_integration": try_integration}
+            "try_integration": try_integration, "tmax": tmax}
 
 
 def get_consts(ctx):
@@ -512,9 +550,7 @@ def iv_bounds(terms, params, zmax, nsub=256):
     L = K = 0.0
     for i in range(nsub):
         X = iv.mpf([edges[i], edges[i + 1]])
-        H = sum(iv.mpf(params[pi]) * X ** k for pi, k in terms)
-        H1 = sum(iv.mpf(params[pi]) * k * X ** (k - 1) for pi, k in terms if k != 0)
-        H2 = sum(iv.mpf(params[pi]) * k * (k - 1) * X ** (k - 2) for pi, k in terms if k not in (0, 1))
+        H, H1, H2 = h_derivs(terms, params, X, iv)
         if not (H.a > 0):
             raise ValueError("H^2 not positive")
         sH = iv.sqrt(H)
@@ -531,10 +567,8 @@ def spec_mu(terms, params, zs, const):
     """5 log10(z * int_1^z dx/sqrt(H^2(x))) + const by mpmath.quad (30 digits). Returns (mu list, I list)."""
     import mpmath as mp
     mp.mp.dps = 30
-    ps = [mp.mpf(p) for p in params]
-
     def g(x):
-        return 1 / mp.sqrt(sum(ps[pi] * x ** k for pi, k in terms))
+        return 1 / mp.sqrt(h_derivs(terms, params, x, mp.mp)[0])
     uniq = sorted(set(zs))
     I = {}
     acc = mp.mpf(0)
@@ -593,6 +627,10 @@ def analytic(ctx, const, delta_real, min_nz, rng):
         pr = params_for(rng, fam)
         jobs.append({"tag": "analytic/%s" % fam, "delta": hx(delta_real), "min_nz": min_nz, "tol": "0", "fam": fam, "zs": zs, "params": pr,
                      "calls": [predcall(zs, fam, pr, True), predcall(zs, fam, pr, False)]})
+    for fam, pr in GUARDED:   # both tiers: antiderivatives with a guarded special case, at and off the special parameter value
+        zs = float_sample(rng, rng.choice([3, 6]), rng.choice(SHAPES))
+        jobs.append({"tag": "analytic/%s%r" % (fam, pr), "delta": hx(delta_real), "min_nz": min_nz, "tol": "0", "fam": fam, "zs": zs, "params": pr,
+                     "guarded": True, "calls": [predcall(zs, fam, pr, True, tmax=20), predcall(zs, fam, pr, False)]})
     if not ctx.quick:
         for fam in ["lcdm", "lin"]:   # sympy does not integrate these: integrated must come back False and the numeric path is used
             zs = float_sample(rng, 5, "unsorted")
@@ -618,6 +656,8 @@ def analytic(ctx, const, delta_real, min_nz, rng):
                      theorem="get_pred_dl_integrated")
         ma, mb = [unhex(t) for t in a["mu"]], [unhex(t) for t in b["mu"]]
         terms = FAMS[job["fam"]][2]
+        if job.get("guarded") and not a.get("integrated"):
+            rep.extra.setdefault("guarded_not_integrated", []).append(job["tag"])
         mus, Is = spec_mu(terms, job["params"], job["zs"], const)
         tols, h = proved_tol(terms, job["params"], job["zs"], Is, delta_real, min_nz, HAVE_C2)
         ctx.c19_analytic.append((job, a, mus))
@@ -721,6 +761,10 @@ def search(ctx):
         pr = params_for(rng, fam)
         jobs.append({"tag": "integrated/%s" % fam, "fam": fam, "zs": zs, "params": pr, "n": 6, "shape": "dups-unsorted", "integrated": True,
                      "delta": hx(delta), "min_nz": min_nz, "calls": [predcall(zs, fam, pr, True)]})
+    for fam, pr in GUARDED:   # both tiers
+        zs = float_sample(rng, 5, "dups-unsorted")
+        jobs.append({"tag": "integrated/%s%r" % (fam, pr), "fam": fam, "zs": zs, "params": pr, "n": 5, "shape": "dups-unsorted", "integrated": True,
+                     "delta": hx(delta), "min_nz": min_nz, "calls": [predcall(zs, fam, pr, True, tmax=20)]})
     try:
         results = run_impl(ctx, jobs)
     except RuntimeError as e:
